@@ -159,10 +159,12 @@ def o_history(a):
     from ixpeobssim.irf import load_irf_set
     import simdrive
     src = xPointSource('p', 30., 45., power_law(a['norm'], a['index']), constant(0.3), constant(0.5))
-    irf_set = load_irf_set(IRF, a.get('du', 1))
     roi = type('R', (), dict(ra=30., dec=45.))()
     bad = []
+    # …and for several response sets in a row (the DU loop of xpobssim re-uses the ROI object; gray filter on the last step)
+    dus = a.get('dus') or [a.get('du', 1)] * len(a['windows'])
     for step, (emin, emax) in enumerate(a['windows']):
+        irf_set = load_irf_set(IRF, dus[step], gray_filter=bool(a.get('gray_last') and step == len(a['windows']) - 1))
         kwargs = simdrive.sim_kwargs(simdrive.config_path('toy_point_source.py'), 'unused.fits', start_met=0., duration=a['T'], emin=emin, emax=emax)
         cs = src.create_count_spectrum(irf_set.aeff, src.sampling_time_grid(0., a['T']), **kwargs)
         Ef = numpy.linspace(emin, emax, 6001)
@@ -327,6 +329,9 @@ def explore(chk, budget=1):
         wins = [w for w in wins if w[1] - w[0] > 0.5]
         run_oracle(chk, 'history', dict(norm=float(g.uniform(1., 5.)), index=float(g.uniform(1.5, 2.5)), T=float(g.choice([200., 1000.])),
                                         du=int(g.integers(1, 4)), seed=int(g.integers(1, 10 ** 6)), windows=wins))
+        # the same window for DU 1, 2, 3 and then the gray filter: what xpobssim does with one ROI object
+        run_oracle(chk, 'history', dict(norm=float(g.uniform(1., 5.)), index=float(g.uniform(1.5, 2.5)), T=200., seed=int(g.integers(1, 10 ** 6)),
+                                        windows=[(2., 8.)] * 4, dus=[1, 2, 3, 1], gray_last=True))
     for cfg in (['toy_point_source.py', 'toy_periodic_source.py'] if quick else ['toy_point_source.py', 'toy_periodic_source.py', 'toy_multiple_sources.py', 'toy_disk.py']):
         run_oracle(chk, 'counts', dict(config=cfg, du=int(g.integers(1, 4)), seed=int(g.integers(1, 10 ** 6)), T=1000.))
 
@@ -358,7 +363,7 @@ def main(chk):
                 'seed lists (Poisson mean, GTI filter); vignetting with fed uniforms (kept ⇔ u ≤ vign(E, θ)); simulated files: row counts vs ∫∫ S·Aeff over the good time for stationary '
                 'and periodic sources. non-trivial = time dependence, z ≠ 0 or nH > 0')
     chk.assumptions = TRUSTED
-    chk.lean(['IxpeVerif.Props.C03'])
+    chk.lean(['IxpeVerif.Props.C03', 'IxpeVerif.Props.StateAudit'])
     explore(chk)
     known_findings(chk)
     return chk.finish(level='proof', trusted=TRUSTED, search=lambda k: explore(chk, 3))
